@@ -86,6 +86,8 @@ class Tr:
             return f"({self.int(e.left)} {op} {self.int(e.right)})%Z"
         if _fn(e) == ("T", "ndim") and len(e.args) == 1 and not e.keywords and _name(e.args[0]) and e.args[0].id in self.arrays:
             return f"(Z.of_nat (ndim {self.arrays[e.args[0].id]}))"
+        if isinstance(e, _ast.Attribute) and e.attr == "ndim" and _name(e.value) and e.value.id in self.arrays:
+            return f"(Z.of_nat (ndim {self.arrays[e.value.id]}))"
         if _fn(e) == (None, "len") and len(e.args) == 1 and _name(e.args[0]) and e.args[0].id in self.lists:
             return f"(Z.of_nat (length {self.lists[e.args[0].id]}))"
         if isinstance(e, _ast.Subscript) and not isinstance(e.slice, (_ast.Slice, _ast.Tuple)):
@@ -417,3 +419,272 @@ def generate(repo):
     tk = gen_tk_blocks(os.path.join(R, "tucker_regression.py"))
     return [("CPRegressor.fit ridge blocks", HEADER + cp + CP_LEMMA.format(box=";\n ".join(cp_box()))),
             ("TuckerRegressor.fit ridge blocks", HEADER + tk + TK_LEMMA.format(box=";\n ".join(tk_box())))]
+
+
+# ============================================================================ CP_PLSR.predict / transform(X): the component loops
+class PTr(Tr):
+    """adds what the bodies of CP_PLSR.predict / transform use: T.copy, T.zeros, T.index_update(M, T.index[:, c], v), M[:, c],
+    multi_mode_dot(t, [vectors], range(a, b)), outer([vectors]), list comprehensions over self.X_factors[1:], broadcast + / -,
+    the attributes of self"""
+
+    def selfkey(self, e):
+        if _is_self_attr(e):
+            return "self." + e.attr
+        if isinstance(e, _ast.Subscript) and _is_self_attr(e.value) and isinstance(e.slice, _ast.Constant) and isinstance(e.slice.value, int):
+            return f"self.{e.value.attr}[{e.slice.value}]"
+        return None
+
+    def col_of(self, e):
+        """M[:, c] -> (matrix term, column Z term) or None"""
+        if isinstance(e, _ast.Subscript) and isinstance(e.slice, _ast.Tuple) and len(e.slice.elts) == 2:
+            sl, c = e.slice.elts
+            if isinstance(sl, _ast.Slice) and sl.lower is None and sl.upper is None and sl.step is None:
+                return self.matrix(e.value), self.int(c)
+        return None
+
+    def matrix(self, e):
+        """a plain (already bound) tensor: a name or an attribute of self"""
+        if _name(e) and e.id in self.arrays:
+            return self.arrays[e.id]
+        k = self.selfkey(e)
+        if k is not None and k in self.arrays:
+            return self.arrays[k]
+        raise Untranslatable("matrix " + _ast.dump(e)[:80])
+
+    def vec_list(self, e):
+        """a Python list of vectors -> Gallina list (tensor Z)"""
+        if _name(e) and e.id in self.lists:
+            return self.lists[e.id]
+        if isinstance(e, _ast.BinOp) and isinstance(e.op, _ast.Add):
+            return f"({self.vec_list(e.left)} ++ {self.vec_list(e.right)})"
+        if isinstance(e, _ast.List):
+            out = []
+            for x in e.elts:
+                mc = self.col_of(x)
+                if mc is None:
+                    raise Untranslatable("list element " + _ast.dump(x)[:80])
+                out.append(f"zcol {mc[0]} {mc[1]}")
+            return "[" + "; ".join(out) + "]"
+        if isinstance(e, _ast.ListComp) and len(e.generators) == 1 and not e.generators[0].ifs and _name(e.generators[0].target):
+            g = e.generators[0]
+            v = g.target.id
+            it = g.iter
+            if isinstance(it, _ast.Subscript) and isinstance(it.slice, _ast.Slice) and it.slice.upper is None and it.slice.step is None \
+                    and isinstance(it.slice.lower, _ast.Constant) and isinstance(it.slice.lower.value, int) and it.slice.lower.value >= 0 \
+                    and self.selfkey(it.value) in self.lists:
+                src = f"(skipn {it.slice.lower.value} {self.lists[self.selfkey(it.value)]})"
+            elif self.selfkey(it) in self.lists:
+                src = self.lists[self.selfkey(it)]
+            else:
+                raise Untranslatable("comprehension source " + _ast.dump(it)[:80])
+            inner = PTr({**self.arrays, v: "f_" + v}, self.lists, self.ints, self.solve_idx)
+            mc = inner.col_of(e.elt)
+            if mc is None or mc[0] != "f_" + v:
+                raise Untranslatable("comprehension element " + _ast.dump(e.elt)[:80])
+            return f"(map (fun f_{v} => zcol f_{v} {mc[1]}) {src})"
+        raise Untranslatable("list of vectors " + _ast.dump(e)[:80])
+
+    def zrange(self, e):
+        if _fn(e) == (None, "range") and len(e.args) in (1, 2) and not e.keywords:
+            a = "(0)%Z" if len(e.args) == 1 else self.int(e.args[0])
+            return f"(zrange {a} {self.int(e.args[-1])})"
+        raise Untranslatable("modes " + _ast.dump(e)[:80])
+
+    def arr(self, e):
+        k = self.selfkey(e)
+        if k is not None and k in self.arrays:
+            return f"(Ok {self.arrays[k]})"
+        mc = self.col_of(e)
+        if mc is not None:
+            return f"(Ok (zcol {mc[0]} {mc[1]}))"
+        if isinstance(e, _ast.BinOp) and isinstance(e.op, (_ast.Add, _ast.Sub)):
+            f = "Z.add" if isinstance(e.op, _ast.Add) else "Z.sub"
+            return f"(rb2 (rbin_b {f}) {self.arr(e.left)} {self.arr(e.right)})"
+        fn = _fn(e)
+        if fn == ("T", "copy") and len(e.args) == 1 and not e.keywords:
+            return self.arr(e.args[0])
+        if fn == ("T", "zeros") and len(e.args) == 1 and self.is_ctx_kw(e.keywords):
+            return f"(rzeros {self.zlist(e.args[0])})"
+        if fn == ("T", "index_update") and len(e.args) == 3 and not e.keywords:
+            ix = e.args[1]
+            if isinstance(ix, _ast.Subscript) and isinstance(ix.value, _ast.Attribute) and ix.value.attr == "index" and isinstance(ix.slice, _ast.Tuple) \
+                    and len(ix.slice.elts) == 2 and isinstance(ix.slice.elts[0], _ast.Slice) and ix.slice.elts[0].lower is None and ix.slice.elts[0].upper is None:
+                return f"(rb2 (rset_col {self.int(ix.slice.elts[1])}) {self.arr(e.args[0])} {self.arr(e.args[2])})"
+            raise Untranslatable("index_update index " + _ast.dump(ix)[:80])
+        if fn == (None, "multi_mode_dot") and len(e.args) == 3 and not e.keywords:
+            return f"(rbind {self.arr(e.args[0])} (fun t_ => r_multi_mode_dot t_ {self.vec_list(e.args[1])} {self.zrange(e.args[2])}))"
+        if fn == (None, "outer") and len(e.args) == 1 and not e.keywords:
+            return f"(r_outer {self.vec_list(e.args[0])})"
+        return Tr.arr(self, e)
+
+    ret_index = None
+
+    def sub(self, arrays):
+        t = PTr(arrays, self.lists, self.ints, self.solve_idx)
+        t.ret_index = self.ret_index
+        return t
+
+    # ---- statement sequences with `for component in range(self.n_components)` loops; the value is the returned expression
+    def seq(self, stmts, ret):
+        """ret: None -> the sequence must end in `return <array expr>`; else a Gallina term builder called with the final translator"""
+        if not stmts:
+            if ret is None:
+                raise Untranslatable("no return at the end of the method")
+            return ret(self)
+        s, rest = stmts[0], stmts[1:]
+        if isinstance(s, _ast.Expr) and isinstance(s.value, _ast.Constant):
+            return self.seq(rest, ret)
+        if isinstance(s, _ast.Return):
+            if ret is not None or rest:
+                raise Untranslatable("return inside a loop / statements after return")
+            v = s.value
+            if isinstance(v, _ast.Tuple):
+                if self.ret_index is None or self.ret_index >= len(v.elts):
+                    raise Untranslatable("tuple return")
+                v = v.elts[self.ret_index]
+            return self.arr(v)
+        if _is_raise_if(s):
+            return self.seq(rest, ret)             # the validation chain is tied by the shape-test group
+        if isinstance(s, _ast.If) and not s.orelse and len(s.body) == 1 and isinstance(s.body[0], _ast.Assign) and len(s.body[0].targets) == 1 \
+                and _name(s.body[0].targets[0]) and s.body[0].targets[0].id in self.arrays:
+            n = s.body[0].targets[0].id
+            return (f"(rbind (if {self.cond(s.test)} then {self.arr(s.body[0].value)} else (Ok {self.arrays[n]})) "
+                    f"(fun v_{n} => {self.sub({**self.arrays, n: 'v_' + n}).seq(rest, ret)}))")
+        if isinstance(s, _ast.Assign) and len(s.targets) == 1 and _name(s.targets[0]):
+            n = s.targets[0].id
+            if isinstance(s.value, (_ast.List, _ast.ListComp)) or (isinstance(s.value, _ast.BinOp) and isinstance(s.value.left, (_ast.List, _ast.ListComp))):
+                inner = PTr({k: v for k, v in self.arrays.items() if k != n}, {**self.lists, n: "l_" + n}, self.ints, self.solve_idx)
+                inner.ret_index = self.ret_index
+                return f"(let l_{n} := {self.vec_list(s.value)} in {inner.seq(rest, ret)})"
+            lists = {k: v for k, v in self.lists.items() if k != n}
+            nxt = PTr({**self.arrays, n: 'v_' + n}, lists, self.ints, self.solve_idx)
+            nxt.ret_index = self.ret_index
+            return f"(rbind {self.arr(s.value)} (fun v_{n} => {nxt.seq(rest, ret)}))"
+        if isinstance(s, _ast.AugAssign) and _name(s.target) and s.target.id in self.arrays and isinstance(s.op, (_ast.Sub, _ast.Add)):
+            n = s.target.id
+            f = "Z.sub" if isinstance(s.op, _ast.Sub) else "Z.add"
+            return (f"(rbind (rb2 (rbin_b {f}) (Ok {self.arrays[n]}) {self.arr(s.value)}) "
+                    f"(fun v_{n} => {self.sub({**self.arrays, n: 'v_' + n}).seq(rest, ret)}))")
+        if isinstance(s, _ast.For) and not s.orelse and _name(s.target) and _fn(s.iter) == (None, "range") and len(s.iter.args) == 1 \
+                and _is_self_attr(s.iter.args[0], "n_components"):
+            lv = s.target.id
+            carried = []
+            for m in s.body:
+                t = m.targets[0] if isinstance(m, _ast.Assign) and len(m.targets) == 1 else (m.target if isinstance(m, _ast.AugAssign) else None)
+                if not _name(t):
+                    raise Untranslatable("loop body statement " + _ast.dump(m)[:80])
+                if t.id in self.arrays and t.id not in carried:      # a name bound before the loop is carried; a new one is a temporary
+                    carried.append(t.id)
+            if not carried:
+                raise Untranslatable("a component loop that updates nothing")
+            pat = "(" + ", ".join("v_" + n for n in carried) + ")" if len(carried) > 1 else "v_" + carried[0]
+            let = (lambda body: f"(let '{pat} := st_ in {body})") if len(carried) > 1 else (lambda body: f"(let {pat} := st_ in {body})")
+            init = "(" + ", ".join(self.arrays[n] for n in carried) + ")"
+            inner = PTr({**self.arrays, **{n: "v_" + n for n in carried}}, self.lists, {**self.ints, lv: f"(Z.of_nat {lv})"}, self.solve_idx)
+            body = inner.seq(s.body, lambda tr: "(Ok (" + ", ".join(tr.arrays[n] for n in carried) + "))")
+            after = self.sub({**self.arrays, **{n: "v_" + n for n in carried}}).seq(rest, ret)
+            return (f"(rbind (fold_left (fun acc_ {lv} => rbind acc_ (fun st_ => {let(body)})) (seq 0 ncomp) (Ok {init})) "
+                    f"(fun st_ => {let(after)}))")
+        raise Untranslatable("statement " + _ast.dump(s)[:100])
+
+
+def _method(path, cls, name):
+    tree = _ast.parse(open(path).read())
+    for n in tree.body:
+        if isinstance(n, _ast.ClassDef) and n.name == cls:
+            for f in n.body:
+                if isinstance(f, _ast.FunctionDef) and f.name == name:
+                    return f
+    raise Untranslatable(f"{cls}.{name} not found")
+
+
+def _is_raise_if(s):
+    return isinstance(s, _ast.If) and not s.orelse and len(s.body) == 1 and isinstance(s.body[0], _ast.Raise)
+
+
+PLSR_PARAMS = "(xmean : tensor Z) (XF : list (tensor Z)) (coef YF1 ymean : tensor Z) (ncomp : nat) (X : tensor Z)"
+
+
+def gen_plsr_bodies(path):
+    env = {"X": "X", "self.X_mean_": "xmean", "self.coef_": "coef", "self.Y_factors[1]": "YF1", "self.Y_mean_": "ymean"}
+    out = []
+    for name in ("predict", "transform"):
+        f = _method(path, "CP_PLSR", name)
+        body = [s for s in f.body if not (isinstance(s, _ast.Expr) and isinstance(s.value, _ast.Constant))]
+        if not body or not _is_raise_if(body[0]):
+            raise Untranslatable(f"CP_PLSR.{name}: the shape check is not the first statement")
+        body = body[1:]
+        if name == "transform":
+            # the X part: everything before `if Y is not None`, then `return X_scores` (the statement after that branch)
+            k = next((j for j, s in enumerate(body) if isinstance(s, _ast.If) and isinstance(s.test, _ast.Compare) and _name(s.test.left, "Y")
+                      and isinstance(s.test.ops[0], _ast.IsNot)), None)
+            if k is None or len(body) != k + 2 or not isinstance(body[k + 1], _ast.Return):
+                raise Untranslatable("CP_PLSR.transform: `if Y is not None: ...` followed by the return of the X scores")
+            full = body
+            body = body[:k] + [body[k + 1]]
+        tr = PTr(env, {"self.X_factors": "XF"}, {"self.n_components": "(Z.of_nat ncomp)"}, "0")
+        out.append(f"Definition plsr_{name}_src {PLSR_PARAMS} : RZ :=\n  {tr.seq(body, None)}.\n")
+        if name == "transform":
+            # the Y branch inlined: the Y scores (second component of the returned pair)
+            ybody = full[:k] + full[k].body
+            if not isinstance(ybody[-1], _ast.Return):
+                raise Untranslatable("CP_PLSR.transform: the Y branch does not end in a return")
+            ty = PTr({**env, "Y": "Y"}, {"self.X_factors": "XF"}, {"self.n_components": "(Z.of_nat ncomp)"}, "0")
+            ty.ret_index = 1
+            out.append(f"Definition plsr_transform_y_src {PLSR_PARAMS} (Y : tensor Z) : RZ :=\n  {ty.seq(ybody, None)}.\n")
+    return "".join(out)
+
+
+def plsr_box():
+    rng = random.Random(1909)
+    out = []
+    shapes = [(2,), (3,), (2, 2), (1, 3), (3, 2), (2, 2, 2), (2, 1, 3)]
+    k = 0
+    for sx in shapes:
+        for width in (0, 1, 2, 3):
+            for ncomp in range(0, width + 1):
+                k += 1
+                if k % 2 and width == 3:
+                    continue
+                n = 1 + k % 3
+                m = 1 + k % 2
+                ntr = 3
+                XF = "[" + "; ".join(_zt((d, width), rng, -2, 2) for d in (ntr,) + sx) + "]"
+                Y = _zt((n, m), rng) if (k % 4 or m > 1) else _zt((n,), rng)          # some vector-valued targets (m = 1)
+                out.append(f"({_zt(sx, rng)}, {XF}, {_zt((width, width), rng, -2, 2)}, {_zt((m, width), rng, -2, 2)}, {_zt((m,), rng)}, {ncomp}, {_zt((n,) + sx, rng)}, {Y})")
+    return out
+
+
+PLSR_HEADER = """From Coq Require Import List Arith ZArith Bool. Import ListNotations.
+From TLV Require Import Base.Shape Base.PyList Base.Tensor Base.Ops Model.Base Model.Tenalg Model.Regress Model.RegressObj Model.RegressSrc.
+"""
+
+PLSR_LEMMA = """
+(* the attributes as the model holds them: one record per fitted column *)
+Definition attrs_of (xmean : tensor Z) (XF : list (tensor Z)) (coef YF1 ymean : tensor Z) (X : tensor Z) : pattrs (F:=Z) :=
+  let k := nth 1 (shape coef) 0 in
+  mkPattrs (nth 0 (shape (nth 0 XF (mk [] []))) 0 :: tl (shape X)) [nth 0 (shape (nth 0 XF (mk [] []))) 0; nth 0 (shape YF1) 0]
+    (mkPlsr xmean ymean
+       (map (fun c => mkComp (map (fun f => zcol f (Z.of_nat c)) (tl XF)) [] (zcol YF1 (Z.of_nat c)) []
+                             (map (fun r => zget coef [r; c]) (seq 0 k))) (seq 0 k))).
+Definition plsr_box : list (tensor Z * list (tensor Z) * tensor Z * tensor Z * tensor Z * nat * tensor Z * tensor Z) := [
+ {box}].
+Definition res_zt_eqb (a b : RZ) : bool := match a, b with Ok x, Ok y => zt_eqb1 x y | Err, Err => true | _, _ => false end.
+Definition plsr_box_ok (c : tensor Z * list (tensor Z) * tensor Z * tensor Z * tensor Z * nat * tensor Z * tensor Z) : bool :=
+  let '(xmean, XF, coef, YF1, ymean, ncomp, X, Y) := c in
+  let a := attrs_of xmean XF coef YF1 ymean X in
+  let p := mkPprm ncomp 1 0%Z in
+  res_zt_eqb (plsr_predict_src xmean XF coef YF1 ymean ncomp X) (plsr_predict_entry Zops p a X) &&
+  res_zt_eqb (plsr_transform_src xmean XF coef YF1 ymean ncomp X)
+             (match plsr_transform_entry Zops p a X None with Ok (t, _) => Ok t | Err => Err end) &&
+  res_zt_eqb (plsr_transform_y_src xmean XF coef YF1 ymean ncomp X Y)
+             (match plsr_transform_entry Zops p a X (Some Y) with Ok (_, Some u) => Ok u | _ => Err end).
+Lemma plsr_bodies_src_box : forallb plsr_box_ok plsr_box = true.
+Proof. vm_compute. reflexivity. Qed.
+"""
+
+
+def generate_plsr(repo):
+    import os
+    text = gen_plsr_bodies(os.path.join(repo, "tensorly", "regression", "cp_plsr.py"))
+    return [("CP_PLSR.predict / transform(X) component loops", PLSR_HEADER + text + PLSR_LEMMA.format(box=";\n ".join(plsr_box())))]
